@@ -102,7 +102,8 @@ ColorOp(col, stroking) ==
 Black == [k |-> "gray", v |-> <<Const("0", 0)>>]
 
 \* ---- GraphicsContext: state = [fill, stroke, stack]
-GInit == [fill |-> Black, stroke |-> Black, stack |-> <<>>]
+Helv == <<72, 101, 108, 118, 101, 116, 105, 99, 97>>
+GInit == [fill |-> Black, stroke |-> Black, stack |-> <<>>, font |-> Helv, size |-> Const("12", 12000000)]
 GOps(st, call) ==       \* operators this call appends
   LET c == call.c n == call.n IN
   CASE c = "move_to" -> <<E("m", Nums(n, TolCoord))>>
@@ -134,6 +135,10 @@ GOps(st, call) ==       \* operators this call appends
     [] c = "set_word_spacing" -> <<E("Tw", Nums(n, TolCoord))>>
     [] c = "set_character_spacing" -> <<E("Tc", Nums(n, TolCoord))>>
     [] c = "paint_shading" -> <<E("sh", <<[k |-> "name", b |-> call.name]>>)>>
+    \* draw_text with a standard font and text within U+0000..U+00FF: a complete text object in the current fill
+    \* colour and font; the string holds one byte per character, the code point itself
+    [] c = "draw_text" -> <<E("BT", <<>>), ColorOp(st.fill, FALSE), E("Tf", <<[k |-> "name", b |-> st.font], N(st.size, TolExact)>>),
+                            E("Td", Nums(n, TolCoord)), E("Tj", <<[k |-> "str", b |-> call.t]>>), E("ET", <<>>)>>
     \* place an image or form XObject: q, a matrix that maps the unit square onto (x, y, w, h), Do, Q
     [] c = "draw_image" -> <<E("q", <<>>),
                              E("cm", Nums(<<n[3], Const("0", 0), Const("0", 0), n[4], n[1], n[2]>>, TolCoord)),
@@ -142,9 +147,11 @@ GOps(st, call) ==       \* operators this call appends
 GStep(st, call) ==
   CASE call.c = "set_fill_color" -> [st EXCEPT !.fill = call.col]
     [] call.c = "set_stroke_color" -> [st EXCEPT !.stroke = call.col]
-    [] call.c = "save_state" -> [st EXCEPT !.stack = Append(@, [fill |-> st.fill, stroke |-> st.stroke])]
+    [] call.c = "set_font" -> [st EXCEPT !.font = call.name, !.size = call.n[1]]
+    [] call.c = "save_state" -> [st EXCEPT !.stack = Append(@, [fill |-> st.fill, stroke |-> st.stroke, font |-> st.font, size |-> st.size])]
     [] call.c = "restore_state" -> IF st.stack = <<>> THEN st
-                                   ELSE [fill |-> st.stack[Len(st.stack)].fill, stroke |-> st.stack[Len(st.stack)].stroke,
+                                   ELSE LET top == st.stack[Len(st.stack)] IN
+                                        [fill |-> top.fill, stroke |-> top.stroke, font |-> top.font, size |-> top.size,
                                          stack |-> SubSeq(st.stack, 1, Len(st.stack) - 1)]
     [] OTHER -> st
 RECURSIVE GExpected(_, _, _)
